@@ -384,7 +384,8 @@ class SymmetryTranslator:
                 ):
                     log.info(f"Replace atleast2 in aggregate {str(blit)}.")
                     for lit in symmetry_bundle.remove_lits():
-                        condition.remove(lit)
+                        while lit in condition:  # the same literal may occur more than once
+                            condition.remove(lit)
                     for lit in symmetry_bundle.add_lits():
                         condition.append(lit)
                     ret.extend(symmetry_bundle.aux_rules())
@@ -415,7 +416,8 @@ class SymmetryTranslator:
             if not symmetry_bundle.empty():
                 log.info(f"Replace atleast2 in {str(stm)}")
                 for lit in symmetry_bundle.remove_lits():
-                    body.remove(lit)
+                    while lit in body:  # the same literal may occur more than once
+                        body.remove(lit)
                 for lit in symmetry_bundle.add_lits():
                     body.append(lit)
                 ret.extend(symmetry_bundle.aux_rules())
